@@ -250,3 +250,171 @@ theorem extU_encode : ∀ (fs fs' : Fields) (i : Nat) (v : Val), extU fs fs' = t
       simp only [extU, Bool.and_eq_true] at h; simp only [wtsAlt] at hw
       simp only [encAlt, embedU]; exact extU_encode r r' i v h.2 hw
 end
+
+/-! ### G-EXT (values): the embedding of a value an authenticator can hold is one it can hold -/
+
+theorem modeOk_embed (m : Mode) (t t' : Ty) (v : Val) : modeOk m (embed t t' v) = modeOk m v := by
+  cases v <;> cases t <;> cases t' <;> cases m <;> simp [embed, modeOk]
+
+theorem noneOk_of_optionalSkip (f : FieldInfo) (h : f.optionalSkip = true) : noneOk f = true := by
+  simp only [FieldInfo.optionalSkip, Bool.and_eq_true, Bool.not_eq_eq_eq_not, Bool.not_true, Bool.or_eq_true, beq_iff_eq] at h
+  unfold noneOk
+  rcases h.2 with hs | hs <;> rw [hs] <;> simp [h.1]
+
+theorem wtFields_none : ∀ (fs : Fields), allOptional fs = true → wtFields fs (List.replicate fs.length none) = true
+  | .nil, _ => rfl
+  | .cons f t rest, h => by
+    simp only [allOptional, Bool.and_eq_true] at h
+    simp only [Fields.length, List.replicate_succ, wtFields, noneOk_of_optionalSkip f h.1, Bool.true_and]
+    exact wtFields_none rest h.2
+
+theorem ext_wtLeaf (l l' : Leaf) (v : Val) (h : ext (.leaf l) (.leaf l') = true) (hw : wtLeaf l v = true) :
+    wtLeaf l' v = true := by
+  by_cases heq : l = l'
+  · subst heq; exact hw
+  · have hb : ∃ c c', l = .bytes (some c) ∧ l' = .bytes (some c') ∧ c ≤ c' := by
+      unfold ext at h
+      split at h
+      · rename_i c c'
+        exact ⟨c, c', rfl, rfl, by simpa using h⟩
+      · exact absurd (by simpa using h) heq
+    obtain ⟨c, c', rfl, rfl, hc⟩ := hb
+    cases v <;> simp_all [wtLeaf, capOk]
+    omega
+
+mutual
+theorem ext_wt : ∀ (t t' : Ty) (v : Val), ext t t' = true → wt t v = true → wt t' (embed t t' v) = true
+  | .leaf l, .leaf l', v, h, hw => by
+      simp only [embed, wt] at hw ⊢
+      exact ext_wtLeaf l l' v h hw
+  | .vec c t, .vec c' t', .list vs, h, hw => by
+      simp only [ext, Bool.and_eq_true, beq_iff_eq] at h
+      simp only [wt, Bool.and_eq_true, decide_eq_true_eq, List.all_eq_true] at hw
+      simp only [embed, wt, Bool.and_eq_true, decide_eq_true_eq, List.all_eq_true, List.length_map, List.mem_map,
+        forall_exists_index, and_imp, forall_apply_eq_imp_iff₂]
+      refine ⟨⟨by rw [← h.1]; exact hw.1.1, hw.1.2⟩, ?_⟩
+      intro v hv
+      exact ext_wt t t' v h.2 (hw.2 v hv)
+  | .filtered a b c d e, .filtered a' b' c' d' e', .list vs, h, hw => by
+      simp only [ext, Bool.and_eq_true, beq_iff_eq, decide_eq_true_eq] at h
+      obtain ⟨⟨⟨⟨ha, hb⟩, hc⟩, hd⟩, he⟩ := h
+      subst ha hb hc hd he
+      simpa only [embed] using hw
+  | .indexed o fs, .indexed o' fs', .record s, h, hw => by
+      simp only [ext, Bool.and_eq_true] at h
+      simp only [wt] at hw
+      simp only [embed, wt]
+      exact extI_wt fs fs' s h.2 hw
+  | .text fs, .text fs', .record s, h, hw => by
+      simp only [ext] at h
+      simp only [wt] at hw
+      simp only [embed, wt]
+      exact extT_wt fs fs' s h hw
+  | .leaf _, .vec _ _, _, h, _ => by simp [ext] at h
+  | .leaf _, .filtered _ _ _ _ _, _, h, _ => by simp [ext] at h
+  | .leaf _, .indexed _ _, _, h, _ => by simp [ext] at h
+  | .leaf _, .text _, _, h, _ => by simp [ext] at h
+  | .leaf _, .untagged _, _, h, _ => by simp [ext] at h
+  | .vec _ _, .leaf _, _, h, _ => by simp [ext] at h
+  | .vec _ _, .filtered _ _ _ _ _, _, h, _ => by simp [ext] at h
+  | .vec _ _, .indexed _ _, _, h, _ => by simp [ext] at h
+  | .vec _ _, .text _, _, h, _ => by simp [ext] at h
+  | .vec _ _, .untagged _, _, h, _ => by simp [ext] at h
+  | .filtered _ _ _ _ _, .leaf _, _, h, _ => by simp [ext] at h
+  | .filtered _ _ _ _ _, .vec _ _, _, h, _ => by simp [ext] at h
+  | .filtered _ _ _ _ _, .indexed _ _, _, h, _ => by simp [ext] at h
+  | .filtered _ _ _ _ _, .text _, _, h, _ => by simp [ext] at h
+  | .filtered _ _ _ _ _, .untagged _, _, h, _ => by simp [ext] at h
+  | .indexed _ _, .leaf _, _, h, _ => by simp [ext] at h
+  | .indexed _ _, .vec _ _, _, h, _ => by simp [ext] at h
+  | .indexed _ _, .filtered _ _ _ _ _, _, h, _ => by simp [ext] at h
+  | .indexed _ _, .text _, _, h, _ => by simp [ext] at h
+  | .indexed _ _, .untagged _, _, h, _ => by simp [ext] at h
+  | .text _, .leaf _, _, h, _ => by simp [ext] at h
+  | .text _, .vec _ _, _, h, _ => by simp [ext] at h
+  | .text _, .filtered _ _ _ _ _, _, h, _ => by simp [ext] at h
+  | .text _, .indexed _ _, _, h, _ => by simp [ext] at h
+  | .text _, .untagged _, _, h, _ => by simp [ext] at h
+  | .untagged _, _, _, _, hw => by simp [wt] at hw
+  | .vec _ _, .vec _ _, .nat _, _, hw => by simp [wt] at hw
+  | .vec _ _, .vec _ _, .int _, _, hw => by simp [wt] at hw
+  | .vec _ _, .vec _ _, .bool _, _, hw => by simp [wt] at hw
+  | .vec _ _, .vec _ _, .unit, _, hw => by simp [wt] at hw
+  | .vec _ _, .vec _ _, .bytes _, _, hw => by simp [wt] at hw
+  | .vec _ _, .vec _ _, .text _, _, hw => by simp [wt] at hw
+  | .vec _ _, .vec _ _, .record _, _, hw => by simp [wt] at hw
+  | .vec _ _, .vec _ _, .variant _ _, _, hw => by simp [wt] at hw
+  | .filtered _ _ _ _ _, .filtered _ _ _ _ _, .nat _, _, hw => by simp [wt] at hw
+  | .filtered _ _ _ _ _, .filtered _ _ _ _ _, .int _, _, hw => by simp [wt] at hw
+  | .filtered _ _ _ _ _, .filtered _ _ _ _ _, .bool _, _, hw => by simp [wt] at hw
+  | .filtered _ _ _ _ _, .filtered _ _ _ _ _, .unit, _, hw => by simp [wt] at hw
+  | .filtered _ _ _ _ _, .filtered _ _ _ _ _, .bytes _, _, hw => by simp [wt] at hw
+  | .filtered _ _ _ _ _, .filtered _ _ _ _ _, .text _, _, hw => by simp [wt] at hw
+  | .filtered _ _ _ _ _, .filtered _ _ _ _ _, .record _, _, hw => by simp [wt] at hw
+  | .filtered _ _ _ _ _, .filtered _ _ _ _ _, .variant _ _, _, hw => by simp [wt] at hw
+  | .indexed _ _, .indexed _ _, .nat _, _, hw => by simp [wt] at hw
+  | .indexed _ _, .indexed _ _, .int _, _, hw => by simp [wt] at hw
+  | .indexed _ _, .indexed _ _, .bool _, _, hw => by simp [wt] at hw
+  | .indexed _ _, .indexed _ _, .unit, _, hw => by simp [wt] at hw
+  | .indexed _ _, .indexed _ _, .bytes _, _, hw => by simp [wt] at hw
+  | .indexed _ _, .indexed _ _, .text _, _, hw => by simp [wt] at hw
+  | .indexed _ _, .indexed _ _, .list _, _, hw => by simp [wt] at hw
+  | .indexed _ _, .indexed _ _, .variant _ _, _, hw => by simp [wt] at hw
+  | .text _, .text _, .nat _, _, hw => by simp [wt] at hw
+  | .text _, .text _, .int _, _, hw => by simp [wt] at hw
+  | .text _, .text _, .bool _, _, hw => by simp [wt] at hw
+  | .text _, .text _, .unit, _, hw => by simp [wt] at hw
+  | .text _, .text _, .bytes _, _, hw => by simp [wt] at hw
+  | .text _, .text _, .text _, _, hw => by simp [wt] at hw
+  | .text _, .text _, .list _, _, hw => by simp [wt] at hw
+  | .text _, .text _, .variant _ _, _, hw => by simp [wt] at hw
+theorem extI_wt : ∀ (fs fs' : Fields) (s : Slots), extI fs fs' = true → wtFields fs s = true →
+    wtFields fs' (embedI fs fs' s) = true
+  | .nil, fs', s, h, _ => by
+      simp only [extI] at h
+      simp only [embedI]
+      exact wtFields_none fs' h
+  | .cons _ _ _, .nil, _, h, _ => by simp [extI] at h
+  | .cons f t r, .cons f' t' r', s, h, hw => by
+      simp only [extI, Bool.and_eq_true, beq_iff_eq] at h
+      obtain ⟨⟨hf, ht⟩, hr⟩ := h
+      subst hf
+      cases s with
+      | nil => simp [wtFields] at hw
+      | cons o s' =>
+        simp only [wtFields, Bool.and_eq_true] at hw
+        simp only [embedI, List.head?_cons, Option.join_some, List.tail_cons, wtFields, Bool.and_eq_true]
+        refine ⟨?_, extI_wt r r' s' hr hw.2⟩
+        cases o with
+        | none => simpa using hw.1
+        | some v =>
+          simp only [Option.map_some, Bool.and_eq_true] at hw ⊢
+          exact ⟨⟨hw.1.1.1, ext_wt t t' v ht hw.1.1.2⟩, by rw [modeOk_embed]; exact hw.1.2⟩
+theorem extT_wt : ∀ (fs fs' : Fields) (s : Slots), extT fs fs' = true → wtFields fs s = true →
+    wtFields fs' (embedT fs fs' s) = true
+  | .nil, fs', s, h, _ => by
+      simp only [extT] at h
+      simp only [embedT]
+      exact wtFields_none fs' h
+  | .cons _ _ _, .nil, _, h, _ => by simp [extT] at h
+  | .cons f t r, .cons f' t' r', s, h, hw => by
+      simp only [extT] at h
+      by_cases hff : (f == f') = true
+      · simp only [hff, if_true, Bool.and_eq_true] at h
+        have hf : f = f' := by simpa using hff
+        subst hf
+        cases s with
+        | nil => simp [wtFields] at hw
+        | cons o s' =>
+          simp only [wtFields, Bool.and_eq_true] at hw
+          simp only [embedT, hff, if_true, List.head?_cons, Option.join_some, List.tail_cons, wtFields, Bool.and_eq_true]
+          refine ⟨?_, extT_wt r r' s' h.2 hw.2⟩
+          cases o with
+          | none => simpa using hw.1
+          | some v =>
+            simp only [Option.map_some, Bool.and_eq_true] at hw ⊢
+            exact ⟨⟨hw.1.1.1, ext_wt t t' v h.1 hw.1.1.2⟩, by rw [modeOk_embed]; exact hw.1.2⟩
+      · simp only [hff, Bool.false_eq_true, if_false, Bool.and_eq_true] at h
+        simp only [embedT, hff, Bool.false_eq_true, if_false, wtFields, Bool.and_eq_true]
+        exact ⟨by simpa using noneOk_of_optionalSkip f' h.1, extT_wt (.cons f t r) r' s h.2 hw⟩
+end
